@@ -3,7 +3,13 @@ from props.C01 import ASSUMPTIONS as A01, TRUSTED as T01
 from props.chef_kernels import chef_tasks, chef_canaries
 
 ASSUMPTIONS = A01 + ["Cantera and user recipes are opaque deterministic functions; new fields of thermochemical recipes are compared "
-                     "with an independent Cantera evaluation to 1e-11 relative, kept fields bit for bit"]
+                     "with an independent Cantera evaluation to 1e-11 relative, kept fields bit for bit",
+                     "Cantera SolutionArray contract (assumed): after `s.TPY = T, P, Y` an attribute of s is a deterministic array of "
+                     "the box (uninterpreted THERMO(box, i, j, k, column)); the five workers are proved to hand it the box's own "
+                     "temperature / mass fractions (cleaned copies: |T|<=1e-8 -> 1, sum(Y)~0 -> Y(O2)=1, the double nearest 1e-8 as "
+                     "numpy.isclose compares), the table entries of the box's own shape, and to write [kept, selected columns]",
+                     "worker arguments as Chef.__init__ builds them: 0 <= sp_start < sp_end <= ncomp, 0 <= id_temp < ncomp, "
+                     "0 <= idx_O2 < sp_end - sp_start, selected species / reaction columns inside the attribute"]
 TRUSTED = T01 + ["Cantera SolutionArray; pathos pool contract (replaced by the controllable pool in the harness)"]
 
 
